@@ -78,10 +78,12 @@ def TaskDecl.pending (d : TaskDecl) (done : List Nat) : List Nat := (posIdx 0 d.
 def TaskDecl.firstPending (d : TaskDecl) (done : List Nat) : Option Nat := (posIdx 0 d.args).find? (d.pendingPred done)
 
 /-- a value `v` for the value-taking parameter in slot `i`; `names` = all task names -/
-def valueOKb (names : List Tok) (d : TaskDecl) (done : List Nat) (i : Nat) (a : ArgSpec) (v : Tok) : Bool :=
+def valueOKb (ic : Option Ctx) (names : List Tok) (d : TaskDecl) (done : List Nat) (i : Nat) (a : ArgSpec) (v : Tok) : Bool :=
   a.takesVal && (decide (a.kind = .list) || !done.contains i) && !d.flagToks.contains v && castable a v &&
   (!a.optional ||
-    ((!isFlag v || (!d.flagToks.contains (beforeEq v) && !d.flagToks.contains (v.take 2))) &&
+    ((!isFlag v || (!d.flagToks.contains (beforeEq v) && !d.flagToks.contains (v.take 2) &&
+        notCoreFlagB ic (beforeEq v) && notCoreFlagB ic (v.take 2))) &&
+      notCoreFlagB ic v &&
       (d.pending done).isEmpty && !done.contains i && decide (a.kind ≠ .list) && !names.contains v))
 
 def bareOKb (d : TaskDecl) (done : List Nat) (i : Nat) (a : ArgSpec) : Bool :=
@@ -93,14 +95,14 @@ def toggleSlotB (d : TaskDecl) (q : Tok) : Bool :=
   | none => false
 
 def SItem.okb (ic : Option Ctx) (names : List Tok) (d : TaskDecl) (done : List Nat) : SItem → Bool
-  | .longSpaced pn v => match d.slot pn with | some (i, a) => valueOKb names d done i a v | none => false
-  | .longEq pn v => match d.slot pn with | some (i, a) => valueOKb names d done i a v | none => false
+  | .longSpaced pn v => match d.slot pn with | some (i, a) => valueOKb ic names d done i a v | none => false
+  | .longEq pn v => match d.slot pn with | some (i, a) => valueOKb ic names d done i a v | none => false
   | .shortSpaced pn v => match d.slot pn with
-      | some (i, a) => a.shortChar.isSome && valueOKb names d done i a v | none => false
+      | some (i, a) => a.shortChar.isSome && valueOKb ic names d done i a v | none => false
   | .shortEq pn v => match d.slot pn with
-      | some (i, a) => a.shortChar.isSome && valueOKb names d done i a v | none => false
+      | some (i, a) => a.shortChar.isSome && valueOKb ic names d done i a v | none => false
   | .shortGlued pn y w => match d.slot pn with
-      | some (i, a) => a.shortChar.isSome && decide (y ≠ '=') && valueOKb names d done i a (y :: w) | none => false
+      | some (i, a) => a.shortChar.isSome && decide (y ≠ '=') && valueOKb ic names d done i a (y :: w) | none => false
   | .flagLong pn => match d.slot pn with | some (_, a) => a.toggles | none => false
   | .flagShort pn => toggleSlotB d pn
   | .noFlag pn => match d.slot pn with | some (_, a) => a.hasInverse && !a.incrementable | none => false
@@ -187,11 +189,11 @@ theorem takesValue_of (a : ArgSpec) {ac : Arg} (hs : ac.spec = a) : ac.takesValu
   simp [Arg.takesValue, ArgSpec.takesVal, hs]
 
 /-- a value flag of parameter slot `i`, spelled with any of the parameter's names -/
-theorem value_flag_ok {reg : List Ctx} {names : List Tok} (hg : d.Good) (hc0 : d.ctx? = .ok c0)
+theorem value_flag_ok {ic : Option Ctx} {reg : List Ctx} {names : List Tok} (hg : d.Good) (hc0 : d.ctx? = .ok c0)
     (t : Tracks c0 c done)
     (hnames : ∀ v, names.contains v = false → reg.find? (fun c => c.name = some v || c.aliases.contains v) = none)
     {i : Nat} {a : ArgSpec} (hi : d.args[i]? = some a) {n : Tok} (hn : n ∈ a.names) {v : Tok}
-    (h : valueOKb names d done i a v = true) : ∃ ac a', ValFlagOK reg c (toFlag n) i v ac a' := by
+    (h : valueOKb ic names d done i a v = true) : ∃ ac a', ValFlagOK ic reg c (toFlag n) i v ac a' := by
   simp only [valueOKb, Bool.and_eq_true, Bool.or_eq_true, decide_eq_true_eq, Bool.not_eq_true'] at h
   obtain ⟨⟨⟨⟨htv, hfresh⟩, hnf⟩, hcast⟩, hopt⟩ := h
   obtain ⟨ac, hac, hinv, hund⟩ := slot_arg hc0 t hi
@@ -211,11 +213,12 @@ theorem value_flag_ok {reg : List Ctx} {names : List Tok} (hg : d.Good) (hc0 : d
   · rcases hopt with ho | ho
     · left; rw [hs]; exact ho
     · right
-      obtain ⟨⟨⟨⟨hfl, hpend⟩, hnd⟩, hnl⟩, hnm⟩ := ho
-      refine ⟨?_, ?_, ?_, hnames v hnm⟩
-      · rcases hfl with hfl | hfl
+      obtain ⟨⟨⟨⟨⟨hfl, hcv⟩, hpend⟩, hnd⟩, hnl⟩, hnm⟩ := ho
+      refine ⟨?_, notCoreFlagB_sound hcv, ?_, ?_, hnames v hnm⟩
+      · rcases hfl with hfl | ⟨⟨⟨hf1, hf2⟩, hf3⟩, hf4⟩
         · exact Or.inl hfl
-        · exact Or.inr ⟨(not_flag_in_c hc0 t hfl.1).1, (not_flag_in_c hc0 t hfl.2).1⟩
+        · exact Or.inr ⟨(not_flag_in_c hc0 t hf1).1, (not_flag_in_c hc0 t hf2).1, notCoreFlagB_sound hf3,
+            notCoreFlagB_sound hf4⟩
       · rw [(tracks_pending hc0 t).1]; simpa using hpend
       · rw [hund (by simpa using hnd)]
         exact init_raw_none hnl htv'.2
@@ -283,7 +286,7 @@ theorem inverse_ok (hg : d.Good) (hc0 : d.ctx? = .ok c0) (t : Tracks c0 c done) 
   obtain ⟨ac, hac, hinv, _⟩ := slot_arg hc0 t hi
   have hs : ac.spec = a := hinv.spec
   have ha : a ∈ d.args := List.mem_of_getElem? hi
-  have hnd := flags_distinct hg.noBlank hc0
+  have hnd := flags_distinct hg.ident.nonEmpty hc0
   have ht := context_tables hc0
   have hmem : (a.inverseName, toFlag (a.names.headD [])) ∈ c0.inverse := by
     rw [ht.2]
